@@ -23,7 +23,8 @@ RULE = ('header dictionaries of valid cards (keys 1-8 chars; ints, floats, strin
         'not x blocks 1..9 / blocks_per_file 1..4 / 1-3 antennas / 8,4 bit / 1,2 pols; readers re-run under up to 6 (quick) / all '
         '(thorough, <= 4 files) creation-order permutations of the files in a fresh tmpfs directory; non-trivial = >= 2 blocks parsed and '
         'reader comparison done; distinct = distinct descriptor')
-ASSUMPTIONS = ['card values are compared after parsing (strings: quotes/padding stripped; numbers by value), not by byte layout',
+ASSUMPTIONS = ['blimpy ends a header at any card that begins with END; files with such (valid) user keys are judged by R-GUPPI and the library readers only',
+               'card values are compared after parsing (strings: quotes/padding stripped; numbers by value), not by byte layout',
                'TELESCOP/OBSERVER/SRC_NAME defaulting is not judged',
                'blimpy GuppiRaw is consulted (framing only) when DIRECTIO is absent/0, or 1 with BLOCSIZE % 512 == 0 (it pads relative to the '
                'absolute file offset, the property relative to the header length)',
@@ -36,7 +37,7 @@ DIRECTIO = ['absent', 0, 1, '1', "'1'", 'absent', 1, 0, '0', "'0'", 1]
 def required(tier):
     b = {f'residue:{k}': 1 for k in range(32)}
     b.update({'residue:0': 4, 'directio:on': 40, 'directio:off': 40, 'template:on': 20, 'template:off': 40, 'override-attempt': 30,
-              'multi-file': 40, 'permutations>=2': 20, 'many-blocks-unpadded': 20, 're-recorded-same-stem': 50, 'directio:string-zero': 20, 'empty-string-value': 10, 'blimpy-consulted': 50, 'aligned+directio': 3})
+              'multi-file': 40, 'permutations>=2': 20, 'many-blocks-unpadded': 20, 're-recorded-same-stem': 50, 'reducer-header-skip': 30, 'user-key-begins-with-END': 20, 'sibling-stems-in-directory': 50, 'directio:string-zero': 20, 'empty-string-value': 10, 'blimpy-consulted': 50, 'aligned+directio': 3})
     return {'buckets': b, 'counters': {'blocks_parsed': 500, 'reader_comparisons': 500, 'listing_orders_realised': 40},
             'checks': 3000, 'nontrivial': 100}
 
@@ -60,7 +61,7 @@ def gen_cases(seed, tier):
         user = {}
         for _ in range(int(rng.integers(0, 9))):
             k = letters[int(rng.integers(26))] + ''.join(chars[int(x)] for x in rng.integers(0, len(chars), size=int(rng.integers(0, 8))))
-            if k in RESERVED or k.startswith('END') or k.startswith('FILL'):
+            if k in RESERVED or k.startswith('FILL'):
                 continue
             r = rng.random()
             if r < 0.35:
@@ -88,6 +89,9 @@ def gen_cases(seed, tier):
             user['SRC_NAME'] = 'VOYAGER1'
         if i % 16 == 5:
             user['EMPTYSTR'] = ''
+        if i % 7 == 4:
+            # a valid 8-character key that merely begins with the letters E N D (only the exact END card terminates a header)
+            user[str(common.pick(rng, ['ENDFREQ', 'ENDTIME', 'ENDING', 'ENDCHAN8']))] = int(rng.integers(1, 1000))
         cases.append(dict(cfg=cfg, user=user, override=override, pkt=pkt, template=bool((i // 5) % 3 == 0) and not many,
                           residue=0 if i % 8 == 0 else (i * 7 + i // 32) % 32, sub=int(rng.integers(2 ** 31))))
     return cases
@@ -258,6 +262,11 @@ def _run(stg, raw_utils, c, cfg, tmp, R):
         os.makedirs(d)
         for q in perm:                        # creation order; tmpfs lists in reverse creation order
             shutil.copyfile(files[q], os.path.join(d, os.path.basename(files[q])))
+        if pi % 2 == 1:
+            # files of OTHER recordings whose stems merely extend or resemble this one live in the same directory
+            for sib in ('rec.injected.0000.raw', 'rec.injected.0001.raw', 'rec2.0000.raw', 'recX.0007.raw', 'rec.00000.raw'):
+                shutil.copyfile(files[0], os.path.join(d, sib))
+            R.bucket('sibling-stems-in-directory')
         pstem = os.path.join(d, 'rec')
         listing = tuple(os.path.basename(x) for x in glob.glob(pstem + '.????.raw'))
         orders_seen.add(listing)
@@ -305,10 +314,23 @@ def _run(stg, raw_utils, c, cfg, tmp, R):
     R.count('listing_orders_realised', len(orders_seen))
     if len(orders_seen) >= 2:
         R.bucket('permutations>=2')
+    # ---- the quick-look reducer's own header skip (dual-polarisation 8-bit files only, per its docstring)
+    if cfg['npol'] == 2 and cfg['bits'] == 8 and cfg['nants'] == 1:
+        R.bucket('reducer-header-skip')
+        with common.quiet():
+            wfq = stg.voltage.get_waterfall_from_raw(files[0], sz['block_size'], cfg['nchan'], int_factor=1, fftlength=1)
+        first = guppi.decode_block(all_blocks[0]['data'], cfg['nchan'], 2, 8)          # (chan, time, pol)
+        want_q = (np.abs(first[:, :, 0]) ** 2 + np.abs(first[:, :, 1]) ** 2).T
+        R.check(np.shape(wfq) == want_q.shape and bool(np.all(np.abs(np.asarray(wfq) - want_q) <= 1e-9 * max(1.0, float(want_q.max())))),
+                'reducer-reads-block-from-wrong-offset' + (':user-key-begins-with-END' if any(k.startswith('END') for k in h0) else ''),
+                shape=list(np.shape(wfq)), want=list(want_q.shape))
     # ---- blimpy as second framing reader
     d_raw = h0.get('DIRECTIO')
     dv = guppi.parse_value(d_raw) if d_raw is not None else 0
-    if (not dio) or (str(dv).strip("' ") == '1' and sz['block_size'] % 512 == 0):
+    end_like = any(k.startswith('END') for k in h0)
+    if end_like:
+        R.bucket('user-key-begins-with-END')
+    if not end_like and ((not dio) or (str(dv).strip("' ") == '1' and sz['block_size'] % 512 == 0)):
         from blimpy.guppi import GuppiRaw
         R.bucket('blimpy-consulted')
         for fi, f in enumerate(files[:2]):
